@@ -399,8 +399,7 @@ fn w2_scenarios() -> Vec<W2> {
     add("list", "LTRIM dropping the head", l3, &[&["LTRIM", "w", "1", "-1"]], true);
     add("list", "LSET in the middle", l3, &[&["LSET", "w", "1", "X"]], true);
     add("list", "LSET of the last element", l3, &[&["LSET", "w", "-1", "X"]], true);
-    add("list", "LINSERT in the middle", l3, &[&["LINSERT", "w", "BEFORE", "b", "X"]], true);
-    add("list", "LREM in the middle", l3, &[&["LREM", "w", "1", "b"]], true);
+    add("list", "middle element removed (LTRIM to the head + RPUSH of the old tail)", l3, &[&["LTRIM", "w", "0", "0"], &["RPUSH", "w", "c"]], true);
     add("list", "first and last element swapped", l3, &[&["LSET", "w", "0", "c"], &["LSET", "w", "2", "a"]], true);
     add("list", "emptied by LPOPs (key disappears)", l3, &[&["LPOP", "w"], &["LPOP", "w"], &["LPOP", "w"]], true);
     add("list", "DEL", l3, &[&["DEL", "w"]], true);
@@ -436,13 +435,11 @@ fn w2_scenarios() -> Vec<W2> {
     add("zset", "ZADD of a new highest member (tail-only)", z3, &[&["ZADD", "w", "9", "z"]], true);
     add("zset", "ZADD of two new highest members (tail-only)", z3, &[&["ZADD", "w", "8", "y", "9", "z"]], true);
     add("zset", "ZREM of the highest member (tail-only)", z3, &[&["ZREM", "w", "c"]], true);
-    add("zset", "ZPOPMAX (tail-only)", z3, &[&["ZPOPMAX", "w"]], true);
     add("zset", "ZADD of a new lowest member (head-only)", z3, &[&["ZADD", "w", "0", "0a"]], true);
     add("zset", "ZREM of the lowest member (head-only)", z3, &[&["ZREM", "w", "a"]], true);
-    add("zset", "ZPOPMIN (head-only)", z3, &[&["ZPOPMIN", "w"]], true);
     add("zset", "ZADD of a new member in the middle", z3, &[&["ZADD", "w", "2.5", "m"]], true);
     add("zset", "score change in the middle, same order", z3, &[&["ZADD", "w", "2.5", "b"]], true);
-    add("zset", "score change of the highest member (only the last reply element changes)", z3, &[&["ZINCRBY", "w", "1", "c"]], true);
+    add("zset", "score change of the highest member (only the last reply element changes)", z3, &[&["ZADD", "w", "4", "c"]], true);
     add("zset", "score change that reorders", z3, &[&["ZADD", "w", "10", "a"]], true);
     add("zset", "ZREM in the middle", z3, &[&["ZREM", "w", "b"]], true);
     add("zset", "DEL", z3, &[&["DEL", "w"]], true);
@@ -482,7 +479,12 @@ struct W2Run { found: Option<Found>, before: Vec<Vec<u8>>, after: Vec<Vec<u8>>, 
 
 /// placement 0: the change happens between WATCH and MULTI; 1: between MULTI (+ one queued command) and EXEC.
 /// watch_mode 0: WATCH w; 1: WATCH a1 w z9 (w in the middle of several keys); 2: WATCH w issued twice; 3: WATCH z9, then WATCH w
-async fn run_w2(cfg: &Cfg, sc: &W2, placement: u8, watch_mode: u8) -> W2Run {
+async fn run_w2(cfg: &Cfg, sc: &W2, placement: u8, watch_mode: u8) -> W2Run { run_w2_s(cfg, sc, placement, watch_mode, std::env::var("VERIF_WATCH_ORDER").is_ok()).await }
+
+/// strict_order: a set / hash whose members are unchanged but LISTED in another order (the hash table was rebuilt) counts as unchanged
+/// (the property: same value => EXEC applies).  The pinned tree aborts EXEC there (reported finding, trigger `watch_order_only`); without
+/// strict_order either outcome is accepted for exactly that case, as long as it is all-or-nothing.
+async fn run_w2_s(cfg: &Cfg, sc: &W2, placement: u8, watch_mode: u8, strict_order: bool) -> W2Run {
     let state = ShardedActorState::with_shards(cfg.shards);
     let mut conns = vec![start_on(cfg, state.clone()), start_on(cfg, state.clone())];
     let mut hist: Vec<String> = Vec::new();
@@ -537,13 +539,21 @@ async fn run_w2(cfg: &Cfg, sc: &W2, placement: u8, watch_mode: u8) -> W2Run {
     if placement == 0 { expect!(0, &c(&["MULTI"]), ok.clone(), "MULTI"); expect!(0, &c(&["SET", "x", "1"]), q.clone(), "queued"); }
     expect!(0, &c(&["RPUSH", "y", "a"]), q.clone(), "queued");
     expect!(0, &c(&["INCR", "n"]), q.clone(), "queued");
-    if differs {
-        expect!(0, &c(&["EXEC"]), Exp::Nil, "the value of the watched key at EXEC differs from its value at WATCH: EXEC returns nil");
+    let order_only = !differs && (ty0 != ty1 || items0 != items1);
+    let exec = send!(0, &c(&["EXEC"]));
+    let full: &[u8] = b"*3\r\n+OK\r\n:1\r\n:1\r\n";
+    let aborted = exp_ok(&Exp::Nil, &exec);
+    let verdict_ok = if differs { aborted } else if order_only && !strict_order { aborted || exec == full } else { exec == full };
+    if !verdict_ok {
+        out.found = Some(Found { input: format!("{}; history: {}", base, hist.join(" ; ")), observed: format!("reply {} to EXEC", show(&exec)),
+            required: if differs { "nil ($-1 or *-1): the value of the watched key at EXEC differs from its value at WATCH, EXEC returns nil and applies nothing".into() } else { format!("{}: the watched key has the value it had at WATCH{}, EXEC applies everything, one result per queued command", show(full), if order_only { " (the same members, only listed in another order)" } else { "" }) } });
+        return out;
+    }
+    if aborted {
         expect!(1, &c(&["GET", "x"]), Exp::Exact(b"$-1\r\n"), "the aborted transaction applies nothing");
         expect!(1, &c(&["LLEN", "y"]), Exp::Exact(b":0\r\n"), "the aborted transaction applies nothing");
         expect!(0, &c(&["GET", "n"]), Exp::Exact(b"$-1\r\n"), "the aborted transaction applies nothing");
     } else {
-        expect!(0, &c(&["EXEC"]), Exp::Exact(b"*3\r\n+OK\r\n:1\r\n:1\r\n"), "the watched key has the value it had at WATCH: EXEC applies everything, one result per queued command");
         expect!(1, &c(&["GET", "x"]), Exp::Exact(b"$1\r\n1\r\n"), "the transaction was applied");
         expect!(1, &c(&["LLEN", "y"]), Exp::Exact(b":1\r\n"), "the transaction was applied");
         expect!(0, &c(&["GET", "n"]), Exp::Exact(b"$1\r\n1\r\n"), "the transaction was applied");
@@ -566,6 +576,24 @@ async fn run_w2(cfg: &Cfg, sc: &W2, placement: u8, watch_mode: u8) -> W2Run {
         match s.finish().await { Ok(rest) if rest.is_empty() => {} Ok(rest) => { out.found = Some(Found { input: format!("{}; history: {}", base, hist.join(" ; ")), observed: format!("surplus output on connection {}: {}", ci, show(&rest)), required: "exactly one reply per command".into() }); return out; } Err(e) => { out.found = Some(Found { input: base.clone(), observed: e, required: "a clean end of the connection".into() }); return out; } }
     }
     out
+}
+
+/// reported finding (C05): a set / hash that B leaves with the SAME members (SADD of an existing member, HSET of the same value, delete +
+/// recreate, grow + shrink) is listed in another order when its hash table was rebuilt; the WATCH snapshot compares the listings
+/// element by element, so EXEC aborts although the value did not change
+async fn check_watch_order_only(cfg: &Cfg) -> Option<Found> {
+    let many: Vec<String> = (0..40).map(|i| format!("tmp{}", i)).collect();
+    let mut grow = vec!["SADD", "w"]; grow.extend(many.iter().map(|s| s.as_str()));
+    let mut shrink = vec!["SREM", "w"]; shrink.extend(many.iter().map(|s| s.as_str()));
+    let scs = vec![
+        W2 { ty: "set", label: "control: SADD of an existing member".into(), setup: cs(&[&["SADD", "w", "a", "b", "c"]]), change: Chg::Cmds(cs(&[&["SADD", "w", "b"]])), changed: false },
+        W2 { ty: "hash", label: "control: HSET writing the same value".into(), setup: cs(&[&["HSET", "w", "f1", "v1", "f2", "v2", "f3", "v3"]]), change: Chg::Cmds(cs(&[&["HSET", "w", "f2", "v2"]])), changed: false },
+        W2 { ty: "set", label: "control: 40 members added and removed again".into(), setup: cs(&[&["SADD", "w", "a", "b", "c"]]), change: Chg::Cmds(cs(&[&grow, &shrink])), changed: false },
+        W2 { ty: "set", label: "control: deleted and recreated with the same members".into(), setup: cs(&[&["SADD", "w", "a", "b", "c", "d", "e"]]), change: Chg::Cmds(cs(&[&["DEL", "w"], &["SADD", "w", "a", "b", "c", "d", "e"]])), changed: false },
+        W2 { ty: "hash", label: "control: deleted and recreated with the same fields".into(), setup: cs(&[&["HSET", "w", "f1", "v1", "f2", "v2", "f3", "v3", "f4", "v4"]]), change: Chg::Cmds(cs(&[&["DEL", "w"], &["HSET", "w", "f1", "v1", "f2", "v2", "f3", "v3", "f4", "v4"]])), changed: false },
+    ];
+    for _ in 0..4 { for sc in &scs { let r = run_w2_s(cfg, sc, 0, 0, true).await; if r.found.is_some() { return r.found; } } }
+    None
 }
 
 async fn check_watch_two_conns(cfg: &Cfg, rng: &mut Rng) -> Option<Found> {
@@ -627,10 +655,12 @@ async fn check_conn_txn(cfg: &Cfg) -> Option<Found> {
     None
 }
 
-pub fn search_txn(_pid: &str, _oid: &str, seed: u64) -> Option<Found> {
+pub fn search_txn(_pid: &str, oid: &str, seed: u64) -> Option<Found> {
     let rt = tokio::runtime::Builder::new_current_thread().enable_all().build().ok()?;
     let local = tokio::task::LocalSet::new();
+    let order_only = oid.contains("watch_order_only");
     local.block_on(&rt, async move {
+        if order_only { return check_watch_order_only(&configs()[0]).await; }
         for cfg in configs().iter().take(2) { if let Some(f) = check_conn_txn(cfg).await { return Some(f); } }
         let mut rng = Rng::new(seed + 45);
         for cfg in configs().iter().take(2) { if let Some(f) = check_watch_two_conns(cfg, &mut rng).await { return Some(f); } }
